@@ -294,3 +294,19 @@ W void w_parse_object_f(const unsigned char* in, unsigned n, unsigned char limit
   else { c = (d.*get(T_so()))(NL(limit)); o->aux = 0; }      // what parseVariant<Filter> does for '{'
   o->aux2 = unsigned(rm.overflowed()); fill(o, d, in, c);
 }
+// ---- parseVariant<Filter> dispatch (every routine below it cut in unit jd_var): kind observed after the call
+static unsigned vkind(VariantData& v, ResourceManager& rm) { JsonVariantConst jv(&v, &rm); return jv.isNull() ? 0 : jv.is<bool>() ? (jv.as<bool>() ? 2 : 1) : jv.is<JsonArrayConst>() ? 3 : jv.is<JsonObjectConst>() ? 4 : 5; }
+W void w_parse_variant_f(const unsigned char* in, unsigned n, unsigned char limit, unsigned shape, unsigned preset, Out* o, unsigned* kind) {
+  SETUP(0)
+  farena.reset(0); ResourceManager frm(&farena); VariantData fv; buildFilter(fv, frm, shape);
+  Filter filter{JsonVariantConst(&fv, &frm)};
+  VariantData v; (void)preset;
+  Code c = (d.*get(T_pvf()))(v, filter, NL(limit));
+  *kind = vkind(v, rm); o->aux = unsigned(rm.overflowed()); fill(o, d, in, c);
+}
+W void w_parse_variant_all(const unsigned char* in, unsigned n, unsigned char limit, Out* o, unsigned* kind) {
+  SETUP(0)
+  VariantData v;
+  Code c = (d.*get(T_pv()))(v, AllowAllFilter(), NL(limit));
+  *kind = vkind(v, rm); o->aux = unsigned(rm.overflowed()); fill(o, d, in, c);
+}
